@@ -96,7 +96,7 @@ class Poly:
         guard = 0
         while not rem.is_zero():
             guard += 1
-            if guard > 10000:
+            if guard > 300:
                 return None
             lead_r = max(rem.t, key=_lexkey)
             d = _mdiv(lead_r, lead_q)
@@ -106,6 +106,34 @@ class Poly:
             quo = quo + term
             rem = rem - term * q
         return quo
+
+    def divrem(self, q, key=None):
+        """(quotient, remainder) of the multivariate division algorithm by one divisor under a monomial order: self == quotient*q + remainder.
+        The pair depends on the order; the caller verifies whatever property of the remainder it needs."""
+        q = _p(q)
+        key = key or _lexkey
+        if q.is_zero():
+            return None
+        lead_q = max(q.t, key=key)
+        cq = q.t[lead_q]
+        work = Poly(dict(self.t))
+        quo, rem = Poly(), Poly()
+        guard = 0
+        while not work.is_zero():
+            guard += 1
+            if guard > 300:
+                return None
+            lead_r = max(work.t, key=key)
+            d = _mdiv(lead_r, lead_q)
+            if d is None:
+                t = Poly({lead_r: work.t[lead_r]})
+                rem = rem + t
+                work = work - t
+                continue
+            term = Poly({d: work.t[lead_r] / cq})
+            quo = quo + term
+            work = work - term * q
+        return quo, rem
 
     def evaluate(self, env):
         tot = Fraction(0)
